@@ -353,7 +353,15 @@ pub fn run(seed: u64, count: u64, out: &mut dyn Write, stats: &mut Stats) {
                     vh.env.block.height += 1;
                 }
             }
-            let line = step(&mut vh, &mut r, stats);
+            // the generator computes with observed values; if a broken contract hands it something it cannot
+            // digest (overflow in a derived amount) the history is abandoned, not the run
+            let line = match catch_unwind(AssertUnwindSafe(|| step(&mut vh, &mut r, stats))) {
+                Ok(l) => l,
+                Err(_) => {
+                    stats.count("generator", "panic_history_abandoned");
+                    break;
+                }
+            };
             stats.distinct(&line);
             writeln!(
                 out,
